@@ -311,7 +311,11 @@ func (c *C) Finish() int {
 			fmt.Printf("HARNESS-ERROR property=%s evidence marshal: %v\n", c.ID, err)
 			return 2
 		}
-		path := filepath.Join(Root(), "evidence", c.ID+".json")
+		dir := filepath.Join(Root(), "evidence")
+		if d := os.Getenv("VERIF_EVIDENCE_DIR"); d != "" { // development aid (tools/seedregress.sh): keep the committed evidence untouched
+			dir = d
+		}
+		path := filepath.Join(dir, c.ID+".json")
 		_ = os.MkdirAll(filepath.Dir(path), 0o755)
 		if err := os.WriteFile(path, bz, 0o644); err != nil {
 			fmt.Printf("HARNESS-ERROR property=%s evidence write: %v\n", c.ID, err)
